@@ -12,7 +12,7 @@ From Verif Require Import Sni.SchedSkel Sni.Shutdown Sni.ShutdownProofs Sni.Shut
 From Verif Require Import Sni.ShutdownEndpoint Sni.ShutdownEndpointProofs.
 From Verif Require Import Sni.DialSkel Sni.ShutdownDial Sni.ShutdownDialProofs Sni.ShutdownDialGen Gen.DialSkel.
 From Verif Require Sni.Mailbox Sni.MailboxProofs Sni.ShutdownSide.
-From Verif Require Import Sni.ShutdownClose Sni.ShutdownCloseProofs.
+From Verif Require Import Sni.ShutdownClose Sni.ShutdownCloseProofs Sni.ShutdownSideDial.
 Import ListNotations.
 Local Open Scope N_scope.
 
@@ -319,6 +319,42 @@ Theorem C04_side_old_cleanup_refuted :
     ShutdownSide.wait_enabled (ShutdownSide.srun false s ps) 7 = false.
 Proof. exact ShutdownSide.old_cleanup_refuted. Qed.
 Print Assumptions C04_side_old_cleanup_refuted.
+
+(** ** Side modes: the handler's side dial is bounded whatever dialer the
+    application supplied (Sni/ShutdownSideDial.v) *)
+
+(** sideConn dials under a context with a deadline of its own. *)
+Theorem C04_side_dial_has_deadline :
+  gen_side_dial_bounded = true /\
+  skel_is gen_transport_skel "endpointServer.sideConn" frozen_sideConn = true.
+Proof. exact (conj gen_side_dial_has_deadline gen_sideConn_frozen). Qed.
+Print Assumptions C04_side_dial_has_deadline.
+
+(** Hence the side handler returns -- and serve's callWait.Wait() with it --
+    without the proxy ever answering the upgrade request and whether or not
+    the application's websocket dialer has a handshake time-out: its own
+    timers and at most two steps of its own, from every state. *)
+Theorem C04_side_handler_returns : forall user_timeout s,
+  sd_pc s <> SFinished ->
+  exists acts s', forallb (fun a => negb (needs_proxy a)) acts = true /\ (List.length acts <= 4)%nat /\
+    sdexec gen_side_dial_bounded user_timeout s acts = Some s' /\ sd_pc s' = SFinished.
+Proof.
+  exact (eq_ind_r (fun b => forall user_timeout s, sd_pc s <> SFinished ->
+           exists acts s', forallb (fun a => negb (needs_proxy a)) acts = true /\ (List.length acts <= 4)%nat /\
+             sdexec b user_timeout s acts = Some s' /\ sd_pc s' = SFinished)
+         side_handler_returns gen_side_dial_has_deadline).
+Qed.
+Print Assumptions C04_side_handler_returns.
+
+(** The seeded change C04-i, kept as a counter-model: no deadline on the
+    dial's context, an application dialer without a handshake time-out, a
+    proxy that never answers: the handler is inside dialSide for ever. *)
+Theorem C04_side_dial_unbounded_refuted :
+  let s0 := mkSD SDial false false false false in
+  forall acts s', ~ In SDAnswer acts -> sdexec false false s0 acts = Some s' ->
+    sd_pc s' = SDial /\ sd_answered s' = false.
+Proof. exact side_dial_unbounded_refuted. Qed.
+Print Assumptions C04_side_dial_unbounded_refuted.
 
 (** The tie of this part to the source. *)
 Theorem C04_dial_source_shape :
